@@ -270,6 +270,17 @@ def exec (conjv : K → K) (half : K) (st : St K) (cmd : List String) : Option (
     else match st.blkOf[n]? with
       | some b => some (st, [s!"o ok {b}"])
       | none => some (st, ["o CRASH oob"])
+  | ["fockof", b, m] =>
+    -- `getFockState(block, m)`: refused (exWrongState) unless the block exists and has a position `m`
+    match b.toInt? with
+    | some bi =>
+      if bi < 0 then some (st, ["o exc wrongState"]) else
+      match st.blocks[bi.toNat]? with
+      | none => some (st, ["o exc wrongState"])
+      | some sts => match sts[m.toNat!]? with
+        | some f => some (st, [s!"o ok {f}"])
+        | none => some (st, ["o exc wrongState"])
+    | none => none
   | ["innerof", n] =>
     let n := n.toNat!
     let nst := 2 ^ st.tbl.length
@@ -283,6 +294,10 @@ def exec (conjv : K → K) (half : K) (st : St K) (cmd : List String) : Option (
   | "tpc" :: "prepareall" :: n :: qs =>
     some ({ st with c4 := C4.prepareAll Pomerol.Gen.Core.fillClearsNonTrivial st.tbl.length st.c4 (readQuads n.toNat! qs) }, ["o ok"])
   | ["tpc", "computeall", split] =>
+    let (c, ok) := C4.computeAll (split != "0") st.c4
+    some ({ st with c4 := c }, [if ok then "o ok" else "o exc statusMismatch"])
+  | ["tpc", "computeall", split, "purge"] =>
+    -- table computation that discards the terms: the statuses change as for any bulk computation
     let (c, ok) := C4.computeAll (split != "0") st.c4
     some ({ st with c4 := c }, [if ok then "o ok" else "o exc statusMismatch"])
   | ["tpc", "list"] => some (st, [c4List st.c4])
